@@ -120,12 +120,9 @@ theorem signSite_ok_token {H : Nat → Nat} {g : Bool} {site : Site} {ed leaf : 
     cases ho : o.res with
     | ok p =>
       obtain ⟨s, t⟩ := p
-      simp only [ho, attachX, Site.selfChecks] at h
+      simp only [ho, attachX] at h
       refine ⟨s, t, rfl, ?_⟩
-      first
-        | (simp only [if_true] at h
-           split at h <;> first | (exact (by simpa using h.symm)) | (simp at h))
-        | (simpa using h.symm)
+      split at h <;> first | (exact (by simpa using h.symm)) | (simp at h)
     | err e => simp [ho] at h
     | panic s => simp [ho] at h
     | diverge => simp [ho] at h
